@@ -215,3 +215,39 @@ def lib_from_rcell(root, route='builder'):
     # order is a post-order: children before parents
     libs = lib_from_ref(order, route)
     return libs[-1]
+
+
+# -- history: things a caller may do with objects DERIVED from cells; none of it may change the cells ---------------------
+
+def disturb(lib, budget=4):
+    """Uses a few library cells (list as returned by lib_from_ref, bottom-up) the way callers do — serialise inner nodes on
+    their own, take builders from them and store more, append them to other builders, read slices made from them. The cells
+    are values: afterwards they must still be what the reference model says. Exceptions are swallowed (irrelevant here).
+    Returns the number of operations performed (for class histograms)."""
+    from pytoniq_core.boc.builder import Builder
+    n = len(lib)
+    with_refs = [k for k in range(n - 1) if lib[k].refs]                    # inner nodes that have children, the root excepted
+    picks = with_refs[-budget:] + [k for k in (0, n // 2, n - 1) if k not in with_refs[-budget:]]
+    leaf = lib[0]
+    ops = 0
+    for k in picks:
+        c = lib[k]
+        for f in (
+            # an inner node serialised under its own root BEFORE the root ever is (its children get other indexes there)
+            (lambda: c.to_boc()) if k != n - 1 else (lambda: None),
+            (lambda: c.to_boc(True, True, True)) if k != n - 1 else (lambda: None),
+            lambda: c.to_builder().store_bits('1'),
+            lambda: c.to_builder().store_ref(leaf),                          # must not show through c.refs
+            lambda: Builder().store_cell(c).store_ref(leaf).end_cell(),
+            lambda: Builder().store_slice(c.begin_parse()).store_ref(leaf),
+            lambda: (lambda s: (s.load_bits(min(3, len(s.bits))), s.load_ref() if s.refs else None))(c.begin_parse()),
+            lambda: (lambda s: (s.to_cell(), s.skip_bits(min(5, len(s.bits)))))(c.to_slice()),
+            lambda: c.copy().to_builder().store_ref(leaf),
+            lambda: c.order(),
+        ):
+            try:
+                f()
+            except Exception:
+                pass
+            ops += 1
+    return ops
